@@ -394,7 +394,7 @@ UNITS = [
                  Check('y_distance_to', 'hz_ydist', engine='Z', timeout=300)],
          preconditions=['locator: |address|, |strides| <= 2^40 memory units, |coordinates| <= 2^20'],
          assumed=['memunit_advance / memunit_advanced / memunit_distance / memunit_step of the underlying x- and y-iterators: a += d, a + d, b - a, the stride (one-line bodies in pixel_iterator.hpp, step_iterator.hpp, planar_pixel_iterator.hpp; bit-aligned: unit bitcursor)']),
-    Unit('stepit', 'C03', STEP_C, extracts=X_STEP, insts=[('plain', 'quick', {'NESTED_BASE': '0'})],
+    Unit('stepit', 'C03', STEP_C, extracts=X_STEP, insts=[('plain', 'quick', {'NESTED_BASE': '0'})], replay=REPLAY_NESTED,
          checks=[Check('step_advance', 'hz_step_advance', engine='Z', timeout=300), Check('step_order', 'hz_step_order', engine='Z', timeout=300)],
          preconditions=['step iterators: |step|, |address| <= 2^40, |element index| <= 2^20'],
          assumed=['memunit_distance of two plain iterators is the difference of their addresses (unit rawptr)']),
